@@ -10,9 +10,14 @@ def run(ctx):
     q = ctx.quick
     two = [s for s in wcat.twoproc_scenarios() if s["family"] == "2proc:tok"]
     plan = [
-        {"scens": wcat.token_scenarios(("file", "process")), "policies": ("FIFO", "JOBS") if q else ("FIFO", "LIFO", "JOBS"), "bound": 1 if q else 2, "cap": 40000},
+        {"scens": wcat.token_scenarios(("file", "process")), "policies": ("FIFO", "JOBS") if q else ("FIFO", "LIFO", "JOBS"), "bound": 1 if q else 2, "demote": True, "cap": 40000},
         {"scens": two, "policies": wcat.POL_WIDE, "bound": 1, "cap": 60000},
-        {"scens": two, "policies": ("FIFO",), "bound": 1 if q else 2, "cap": 400000},
+        # one deviation, including the "long preemption" (the default actor is descheduled until nothing else can run), under
+        # process-priority policies as well; two deviations under FIFO in the thorough tier
+        {"scens": two, "policies": ("FIFO", "LIFO", "JOBS") + wcat.POL_PROC, "bound": 1, "demote": True, "cap": 60000},
+        *([] if q else [{"scens": two, "policies": ("FIFO",), "bound": 2, "demote": True, "cap": 600000}]),
+        # thorough: two deviations at most 15 scheduling steps apart under LIFO as well
+        *([] if q else [{"scens": two, "policies": ("LIFO",), "bound": 2, "window": 15, "demote": True, "cap": 400000}]),
         {"scens": wcat.nested_scenarios()[1:], "policies": ("FIFO",), "bound": 1, "cap": 20000},
     ]
     return run_w(ctx, PROPERTY, plan,
